@@ -30,6 +30,10 @@ Entries ==
     [e |-> "crypto_secretstream_pull",             ovh |-> 17, fam |-> "stream"],
     [e |-> "DryocStream::pull",                    ovh |-> 17, fam |-> "stream"],
     [e |-> "DryocStream::pull_to_vec",             ovh |-> 17, fam |-> "stream"],
+    \* the receiver's state object is not a freshly initialised one: never given a key, or wiped.  No input is authentic for it
+    [e |-> "crypto_secretstream_pull (state never initialised)",      ovh |-> 17, fam |-> "stream"],
+    [e |-> "crypto_secretstream_pull (state wiped after init_pull)",  ovh |-> 17, fam |-> "stream"],
+    [e |-> "DryocStream::pull_to_vec (stream wiped after init_pull)", ovh |-> 17, fam |-> "stream"],
     [e |-> "crypto_sign_open",                     ovh |-> 64, fam |-> "sign"],
     [e |-> "crypto_sign_verify_detached",          ovh |-> 0,  fam |-> "sign"],
     [e |-> "crypto_sign_final_verify",             ovh |-> 0,  fam |-> "sign"],
